@@ -1,7 +1,7 @@
 """Constants of pym/bob/state.py used by the C10 model: the four file names of
 the persistence protocol, the state version window, the checksum trailer
 format.  Fail-closed ast walker (TieError when the source changed shape)."""
-import ast
+import os, ast, json
 from vlib.gen_consts import parse, find_def, coq_str, TieError
 
 NAME = "ConstsC10"
@@ -115,8 +115,23 @@ def read_consts():
     return out
 
 
+SIDECAR = os.path.join(os.path.dirname(os.path.abspath(__file__)), "..", "..", "coq", "Gen", "ConstsC10.lastgood.json")
+
+
+def last_good():
+    """constants of the last successful translation (generated file, not committed): used only to go on
+    searching for a failing input after the tie to the current source has already been reported broken"""
+    with open(SIDECAR) as f:
+        return json.load(f)
+
+
 def extract(out):
     c = read_consts()
+    try:
+        with open(SIDECAR, "w") as f:
+            json.dump(c, f)
+    except OSError:
+        pass
     out.append("(* props/consts_c10.py: pym/bob/state.py *)")
     out.append("Definition PATH_PICKLE : list N := %s." % coq_str(c["pickle"]))
     out.append("Definition PATH_NEW : list N := %s." % coq_str(c["new"]))
